@@ -964,6 +964,8 @@ class Context:
                 # Execute the expression to get the function object
                 vm = VM(self.memory_limit, self.time_limit)
                 vm.globals = self._globals
+                if self._current_vm is not None:
+                    vm.start_time = self._current_vm.start_time
                 result = vm.run(bytecode_module)
 
                 if isinstance(result, JSFunction):
@@ -971,6 +973,8 @@ class Context:
                 else:
                     # Fallback: return a simple empty function
                     return JSFunction("anonymous", params, bytes(), {})
+            except (TimeLimitError, MemoryLimitError):
+                raise
             except Exception as e:
                 from .errors import JSError
 
@@ -1103,7 +1107,12 @@ class Context:
 
                 vm = VM(ctx.memory_limit, ctx.time_limit)
                 vm.globals = ctx._globals
+                # Nested code runs against the deadline of the outer eval
+                if ctx._current_vm is not None:
+                    vm.start_time = ctx._current_vm.start_time
                 return vm.run(bytecode_module)
+            except (TimeLimitError, MemoryLimitError):
+                raise  # a limit stops the whole evaluation, not just eval()
             except Exception as e:
                 from .errors import JSError
 
